@@ -175,6 +175,20 @@ P = {
             "re-cased spelling of the same filter must select the same ids in every style.",
             "trusted: vpmon/ref/odata_eval.py; strpos/concat/floor/ceil UDFs of the harness",
             "DESIGN.md 2/C03"),
+    "C12": ("M-fall / M-part hooks on the visitor base class + leaf-presence and exception-class "
+            "monitors over the exhaustive (node kind x position x backend) matrix; ORM "
+            "statements executed",
+            "Exploration by runtime monitoring, exhaustive over the stated matrix (~430 cells x 7 "
+            "backends): each cell's well-typed filter is translated by the real backend with the "
+            "visit hooks on; a returned result must show no value node falling through to "
+            "generic_visit, no nested visit returning None, and every unique field/literal leaf "
+            "in the output (SQL tokens, Q/expression tree, SQLAlchemy clause iteration); a raised "
+            "exception must be an ODataException (NotImplementedError only for Core on "
+            "paths/lambdas; InvalidFieldException for unknown fields on SQLAlchemy). Django and "
+            "SQLAlchemy statements are also executed so late failures surface.",
+            "trusted: harness models T/Post; geo.* on Django and DB-missing SQL functions are "
+            "classified as environment, not judged",
+            "DESIGN.md 2/C12"),
 }
 
 NOT_BUILT_REASON = "check not built yet in this round (design in DESIGN.md section 2); not claimed"
